@@ -37,7 +37,7 @@ def gen_restraint(r, k, T):
         per = kind != "linear" and r.random() < 0.3
         P = r.choice([4.0, 8.0]) if per else None
         wc = r.choice([0.0, 1.0, -2.5]) if per else 0.0
-        vars_.append({"w": w, "P": P, "wc": wc})
+        vars_.append({"w": w, "per": per, "P": P if per else 1.0, "wc": wc})
         cfg += cv_block(i, width=w, period=P, wrap=wc)
         if per:
             tags.append("periodic")
@@ -51,50 +51,72 @@ def gen_restraint(r, k, T):
     B = [kw + " {", "  name r", "  colvars " + " ".join("v%d" % i for i in range(nv))]
     kk = r.choice([0.5, 1.0, 2.0, 3.0, 1.5])
     B.append("  forceConstant %r" % kk)
+    M = {"kind": kind, "vars": vars_, "k0": kk, "centers": [0.0] * nv, "target_centers": [0.0] * nv, "chgc": False,
+         "chgk": False, "dec": False, "sk": -1.0, "tk": -1.0, "lexp": 1.0, "sched": [], "N": 0, "nstages": 0, "equil": 0,
+         "accw": False, "hl": False, "hu": False, "lower": [0.0] * nv, "upper": [0.0] * nv, "lk": -1.0, "uk": -1.0}
     if kind != "walls":
         cen = [V.dyadic(r, -3, 3, bits=2) for _ in vars_]
         B.append("  centers " + vec(cen))
+        M["centers"] = cen
+        M["target_centers"] = cen
     else:
         lo = [V.dyadic(r, -3, 0, bits=2) for _ in vars_]
         up = [a + V.dyadic(r, 0.5, 3, bits=2) for a in lo]
         B.append("  lowerWalls " + vec(lo))
         B.append("  upperWalls " + vec(up))
+        # harmonic_walls::init with one forceConstant: force_k = sqrt(k*k) = k, both wall constants k/k = 1
+        M.update({"hl": True, "hu": True, "lower": lo, "upper": up, "lk": 1.0, "uk": 1.0})
     N = r.choice([1, 2, 3, 3, 4, 5, 8])
     nst = r.choice([1, 2, 3, 4])
     if m in ("cc", "cs"):
-        B.append("  targetCenters " + vec([x + r.choice([-1, 1]) * V.dyadic(r, 0.5, 5, bits=1) for x in cen]))
+        tc = [x + r.choice([-1, 1]) * V.dyadic(r, 0.5, 5, bits=1) for x in cen]
+        B.append("  targetCenters " + vec(tc))
+        M["chgc"] = True
+        M["target_centers"] = tc
     if m in ("kc", "ks", "kl"):
+        M["chgk"] = True
         if r.random() < 0.3:
             B.append("  decoupling on")
             tags.append("decoupling")
+            M.update({"dec": True, "sk": 0.0, "tk": kk})
         else:
-            B.append("  targetForceConstant %r" % r.choice([0.0, 0.25, 4.0, 6.0]))
+            tk = r.choice([0.0, 0.25, 4.0, 6.0])
+            B.append("  targetForceConstant %r" % tk)
+            M.update({"sk": kk, "tk": tk})
         le = r.choice([1.0, 1.0, 2.0, 3.0, 1.5])
         if le != 1.0:
             B.append("  lambdaExponent %r" % le)
+        M["lexp"] = le
     if m != "none":
         B.append("  targetNumSteps %d" % N)
+        M["N"] = N
     if m in ("cs", "ks"):
         B.append("  targetNumStages %d" % nst)
+        M["nstages"] = nst
     if m == "kl":
         n = r.randint(2, 4)
         sched = sorted([r.choice([0.0, 0.125, 0.25, 0.5, 0.75, 1.0]) for _ in range(n)])
         B.append("  lambdaSchedule " + vec(sched))
+        M["sched"] = sched
+        M["nstages"] = n - 1
     if m in ("ks", "kl") and N >= 2:
         eq = r.choice([0, 0, 1, 1, 2])
         eq = min(eq, N - 1)
         if eq:
             B.append("  targetEquilSteps %d" % eq)
             tags.append("equil")
+            M["equil"] = eq
     if m in ("cc", "kc") and r.random() < 0.7:
         B.append("  outputAccumulatedWork on")
         tags.append("accwork")
+        M["accw"] = True
     if r.random() < 0.2:
         B.append("  outputEnergy on")
     B.append("}")
     it0 = r.choice([0, 0, 0, 5, 12])
-    return {"fam": "restraint", "tags": tags, "natoms": nv, "config": cfg + B, "it0": it0,
-            "pos": walk(r, T, nv), "N": N, "mode": m}
+    M["it0"] = it0
+    return {"fam": "restraint", "tags": tags, "sigtags": [m], "natoms": nv, "config": cfg + B, "it0": it0,
+            "pos": walk(r, T, nv), "model": M}
 
 
 # ------------------------------------------------------------------------------------------------ histogram
@@ -102,46 +124,50 @@ def gen_histogram(r, k, T):
     nv = r.choice([1, 1, 2])
     cfg = []
     tags = ["histogram"]
+    M = {"lower": [], "width": [], "nx": [], "szd": False}
     for i in range(nv):
         w = r.choice([0.5, 1.0, 2.0])
         nx = r.randint(2, 6)
         lo = V.dyadic(r, -4, 0, bits=2)
         cfg += cv_block(i, width=w, lower=lo, upper=lo + nx * w)
+        M["lower"].append(lo); M["width"].append(w); M["nx"].append(nx)
     B = ["histogram {", "  name h", "  colvars " + " ".join("v%d" % i for i in range(nv))]
+    sig = []
     if r.random() < 0.25:
         B.append("  stepZeroData on")
         tags.append("stepZeroData")
+        sig = ["stepZeroData"]
+        M["szd"] = True
     B.append("}")
-    return {"fam": "histogram", "tags": tags, "natoms": nv, "config": cfg + B, "it0": r.choice([0, 0, 7]),
-            "pos": walk(r, T, nv, lo=-4.5, hi=4.5, bits=3)}
-
-
-def gen_histogram_vector(r, k, T):
-    # a vector-valued variable (distancePairs of 2 x 1 atoms has one entry; 2 x 2 has four)
-    na = r.choice([2, 3, 4])
-    tags = ["histogram", "vector"]
-    g1 = list(range(1, na // 2 + 1))
-    g2 = list(range(na // 2 + 1, na + 1))
-    cfg = ["colvar {", "  name v0", "  width 1.0", "  lowerBoundary 0.0", "  upperBoundary 8.0",
-           "  distancePairs {", "    group1 { atomNumbers %s }" % " ".join(map(str, g1)),
-           "    group2 { atomNumbers %s }" % " ".join(map(str, g2)), "  }", "}"]
-    B = ["histogram {", "  name h", "  colvars v0", "  gatherVectorColvars on", "}"]
-    return {"fam": "histogram", "tags": tags, "natoms": na, "config": cfg + B, "it0": 0,
-            "pos": walk(r, T, na, lo=-4.0, hi=4.0, bits=3)}
+    return {"fam": "histogram", "tags": tags, "sigtags": sig, "natoms": nv, "config": cfg + B, "it0": r.choice([0, 0, 7]),
+            "pos": walk(r, T, nv, lo=-4.5, hi=4.5, bits=3), "model": M}
 
 
 # ------------------------------------------------------------------------------------------------ extended Lagrangian
+KB = 0.001987191
+
+
 def gen_extlag(r, k, T):
-    nv = 1
     tags = ["extlag"]
     w = r.choice([0.5, 1.0])
-    ex = ["extendedLagrangian on", "extendedFluctuation %r" % r.choice([0.5, 1.0, 0.25]),
-          "extendedTimeConstant %r" % r.choice([50.0, 100.0, 200.0])]
-    setup = ["dt 1.0", "temperature 300.0"]
+    tol = r.choice([0.5, 1.0, 0.25])
+    period = r.choice([50.0, 100.0, 200.0])
+    temp = 300.0
+    dt = 1.0
+    ex = ["extendedLagrangian on", "extendedFluctuation %r" % tol, "extendedTimeConstant %r" % period]
+    setup = ["dt %r" % dt, "temperature %r" % temp]
+    X = {"dt": dt, "k": KB * temp / (tol * tol),
+         "mass": (KB * temp * period * period) / (4.0 * math.pi * math.pi * tol * tol),
+         "langevin": False, "gf": 1.0, "sigma": 0.0, "rlo": False, "lo": 0.0, "rup": False, "up": 0.0, "rnd": 0.0}
     if r.random() < 0.4:
-        ex += ["extendedLangevinDamping %r" % r.choice([1.0, 10.0])]
-        setup.append("gauss %r" % r.choice([0.5, -1.25, 2.0]))
+        damp = r.choice([1.0, 10.0])
+        g = r.choice([0.5, -1.25, 2.0])
+        ex += ["extendedLangevinDamping %r" % damp]
+        setup.append("gauss %r" % g)
         tags.append("langevin")
+        gamma = damp * 1.0e-3
+        X.update({"langevin": True, "gf": math.exp(-1.0 * dt * gamma), "rnd": g,
+                  "sigma": math.sqrt((1.0 - math.exp(-2.0 * gamma * dt * 1.0)) * X["mass"] * KB * temp)})
     else:
         ex += ["extendedLangevinDamping 0.0"]
     lo = up = None
@@ -149,6 +175,7 @@ def gen_extlag(r, k, T):
         lo, up = -2.0, 2.0
         ex += ["reflectingLowerBoundary on", "reflectingUpperBoundary on"]
         tags.append("reflecting")
+        X.update({"rlo": True, "lo": lo, "rup": True, "up": up})
     if r.random() < 0.3:
         ex += ["outputVelocity on"]
         tags.append("outputVelocity")
@@ -157,18 +184,28 @@ def gen_extlag(r, k, T):
     cfg = cv_block(0, width=w, lower=lo, upper=up, extra=ex)
     bias = r.choice(["harmonic", "harmonic", "moving", "none"])
     tags.append("bias=" + bias)
+    it0 = r.choice([0, 0, 3])
+    RM = {"kind": "harmonic", "vars": [{"w": w, "per": False, "P": 1.0, "wc": 0.0}], "k0": 0.0, "centers": [0.0],
+          "target_centers": [0.0], "chgc": False, "chgk": False, "dec": False, "sk": -1.0, "tk": -1.0, "lexp": 1.0,
+          "sched": [], "N": 0, "nstages": 0, "equil": 0, "accw": False, "hl": False, "hu": False, "lower": [0.0],
+          "upper": [0.0], "lk": -1.0, "uk": -1.0, "it0": it0}
     if bias != "none":
-        B = ["harmonic {", "  name r", "  colvars v0", "  forceConstant %r" % r.choice([1.0, 2.0, 10.0]),
-             "  centers %r" % V.dyadic(r, -1, 1, bits=2)]
+        kk = r.choice([1.0, 2.0, 10.0])
+        cen = V.dyadic(r, -1, 1, bits=2)
+        B = ["harmonic {", "  name r", "  colvars v0", "  forceConstant %r" % kk, "  centers %r" % cen]
+        RM.update({"k0": kk, "centers": [cen], "target_centers": [cen]})
         if bias == "moving":
-            B += ["  targetCenters %r" % V.dyadic(r, -1.5, 1.5, bits=2), "  targetNumSteps %d" % r.choice([4, 10, 40])]
+            tc = V.dyadic(r, -1.5, 1.5, bits=2)
+            N = r.choice([4, 10, 40])
+            B += ["  targetCenters %r" % tc, "  targetNumSteps %d" % N]
+            RM.update({"chgc": True, "target_centers": [tc], "N": N})
         B.append("}")
         cfg += B
     start = [V.dyadic(r, -1.0, 1.0, bits=3)]
     pos = walk(r, T, 1, lo=-1.5, hi=1.5, bits=5, stay=0.1, start=start)
     # small moves only: the module refuses a jump of more than half a width after a restart
-    return {"fam": "extlag", "tags": tags, "natoms": 1, "setup": setup, "config": cfg, "it0": r.choice([0, 0, 3]),
-            "pos": pos}
+    return {"fam": "extlag", "tags": tags, "sigtags": [], "natoms": 1, "setup": setup, "config": cfg, "it0": it0,
+            "pos": pos, "model": {"x": X, "r": RM, "nobias": bias == "none"}}
 
 
 # ------------------------------------------------------------------------------------------------ ABMD
@@ -186,8 +223,8 @@ def gen_abmd(r, k, T):
         B.append("  decreasing on")
     B.append("}")
     tags = ["abmd", "nice" if nice else "long-decimals"]
-    return {"fam": "abmd", "tags": tags, "natoms": 1, "config": cfg + B, "it0": 0,
-            "pos": walk(r, T, 1, lo=-4, hi=4, bits=3)}
+    return {"fam": "abmd", "tags": tags, "sigtags": [], "natoms": 1, "config": cfg + B, "it0": 0,
+            "pos": walk(r, T, 1, lo=-4, hi=4, bits=3), "model": {"k": kk, "stop": stop, "dec": dec}}
 
 
 # ------------------------------------------------------------------------------------------------ ALB
@@ -308,5 +345,4 @@ def gen_opes(r, k, T):
             "config": cfg + B, "it0": 0, "pos": walk(r, T, nv, lo=-3.0, hi=3.0, bits=3), "restartfreq": rf}
 
 
-FAMILIES = {"opes": gen_opes, "restraint": gen_restraint, "histogram": gen_histogram, "histvec": gen_histogram_vector,
-            "extlag": gen_extlag, "abmd": gen_abmd, "alb": gen_alb, "abf": gen_abf, "meta": gen_meta}
+FAMILIES = {"opes": gen_opes, "restraint": gen_restraint, "histogram": gen_histogram, "extlag": gen_extlag, "abmd": gen_abmd, "alb": gen_alb, "abf": gen_abf, "meta": gen_meta}
